@@ -176,6 +176,7 @@ pub fn profile(tier: Tier) -> Profile {
     p.w_reopen = 1;
     p.w_read = 0;
     p.huge_payload = tier == Tier::Thorough;
+    p.faults = crate::ops::FaultGen::SyncOnly;
     p
 }
 
@@ -224,11 +225,19 @@ impl Prop for C11 {
         let mut info = CaseInfo::default();
         let n_names = check_name_codec(case.sel)?;
         info.evals += n_names;
-        let ((classes, compared), _ctl) = with_run(&case.cfg, false, &[], |run| {
+        // Half of the cases run with worker faults that must not change the journal: failing
+        // fdatasyncs (once / repeatedly / forever), short writes, EINTR. The bytes still have to
+        // land where the layout says; acknowledgements may report errors (C04 judges those).
+        let faulty = !case.faults.is_empty() && case.sel & 1 == 1;
+        let faults: Vec<crate::trace::FaultRule> = if faulty { case.faults.clone() } else { vec![] };
+        let ((classes, compared), _ctl) = with_run(&case.cfg, false, &faults, |run| {
             let mut compared = 0u64;
             let mut sizes = std::collections::BTreeSet::new();
             for op in &case.ops {
                 if matches!(op, OpSpec::Reject { .. } | OpSpec::Probe(_) | OpSpec::Steps(_)) {
+                    continue;
+                }
+                if faulty && matches!(op, OpSpec::Reopen { .. }) {
                     continue;
                 }
                 let d = run.exec(op)?;
@@ -251,7 +260,16 @@ impl Prop for C11 {
                             check_stat_layout(run)?;
                             check_dump(run)?;
                             let img = shadowfs::read_image(&run.dir).map_err(|e| Fail::new("dir-read", e.to_string()))?;
-                            let total: u64 = img.values().map(|v| v.len() as u64).sum();
+                            // "from the oldest retained chunk": after a failed sync a purged chunk
+                            // file legitimately stays on disk until a sync succeeds, although the
+                            // store no longer retains it — there the oldest chunk stat() lists counts
+                            let oldest = if faulty {
+                                let st = run.rl().stat();
+                                st.closed_chunks.first().map(|c| c.global_start).unwrap_or(st.open_chunk.global_start)
+                            } else {
+                                0
+                            };
+                            let total: u64 = img.iter().filter(|(n, _)| refcodec::parse_chunk_file_name(n).map(|o| o >= oldest).unwrap_or(true)).map(|(_, v)| v.len() as u64).sum();
                             let got = run.rl().on_disk_size();
                             if got != total {
                                 return Err(Fail::new("on-disk-size", format!("on_disk_size() = {got} but the chunk files present hold {total} bytes")));
@@ -263,7 +281,14 @@ impl Prop for C11 {
                 }
             }
             // final settle + compare
-            run.flush_and_settle()?;
+            if faulty {
+                let id = run.flush_call(true)?;
+                run.wait_ack(id)?;
+                run.wait_stable();
+                run.classes.hit("sync_faults_case");
+            } else {
+                run.flush_and_settle()?;
+            }
             check_dir_layout(run)?;
             check_dump(run)?;
             compared += 1;
